@@ -67,9 +67,10 @@ CHECKS = {
    note="Trusted: the hand-expanded core forms, FOL encoder, z3. Known findings: closure pushed into conjunctions (differs only on empty quantifier domains); descendant axis under an existential rejected.",
    design="§3 C08"),
  "C12": dict(level="other", technique="CrossHair (z3): solver-driven exhaustive enumeration of bounded input trees; real fuzzer/mutator with the random module replaced by every periodic draw stream",
-   text=BOUNDED + "Real GrammarFuzzer/GrammarCoverageFuzzer.expand_tree and Mutator.replace_subtree_randomly/generalize_subtree on every tree decodable from <= 4/6 choices over 3 grammars, "
+   text=BOUNDED + "Real GrammarFuzzer/GrammarCoverageFuzzer.expand_tree and Mutator.replace_subtree_randomly/generalize_subtree/swap_subtrees/mutate on every tree decodable from <= 4/6 choices over 4 grammars "
+        "(also with sibling nodes sharing an id and with inputs rooted at other nonterminals), "
         "for every periodic random stream of period 2/3 over 4 values: result closed, valid for the grammar, same root, expanded part unchanged.",
-   note="Trusted: tree validator, random stub. [decoder]. Outside: Mutator.mutate/swap_subtrees (raise TypeError from the installed `returns` library on the unchanged tree), aperiodic streams.",
+   note="Trusted: tree validator, random stub. [decoder]. Outside: aperiodic streams, larger trees.",
    design="§3 C12"),
  "C14": dict(level="other", technique="CrossHair (z3): symbolic target length / start nonterminal / target count enumerated by the solver, real create_fixed_length_tree and count() with stubbed random streams",
    text=BOUNDED + "create_fixed_length_tree for every target length 0..8/14, 4 grammars x every nonterminal as start, every periodic random stream: a returned tree is closed, valid and has exactly the requested length. "
@@ -99,8 +100,8 @@ CHECKS = {
    design="§3 C17"),
  "C18": dict(level="other", technique="CrossHair (z3): solver-driven exhaustive enumeration of bounded inputs; call sequences on long-lived ISLaSolver objects vs. the reference semantics",
    text=BOUNDED + "Every closed tree of the assignment grammar with <= 2/3 statements + 9 non-members x 10 constraints, on one solver object per constraint: check(tree) = check(str) = reference verdict, parse raises "
-        "SyntaxError/SemanticError exactly when due, answers are stable across a call sequence (parse with skip_check, then check/parse again), repair returns valid inputs unchanged.",
-   note="Trusted: checks/refsem.py. [decoder]. Outside: repair/mutate of invalid inputs (they call the solver loop and hit a TypeError of the installed `returns` library on the unchanged tree).",
+        "SyntaxError/SemanticError exactly when due, answers are stable across a call sequence (parse with skip_check, then check/parse again), repair returns valid inputs unchanged and otherwise nothing or a valid input, every tree returned by mutate is valid.",
+   note="Trusted: checks/refsem.py. [decoder]. repair/mutate run the solver loop with internal wall-clock timeouts (calls over 20 s abandoned, unreproducible failures inconclusive).",
    design="§3 C18"),
  "C13": dict(level="other", technique="CrossHair (z3): solver-driven exhaustive enumeration of bounded host trees; real insert_tree for every portfolio tree and every combination of insertion methods",
    text=BOUNDED + "Every host tree decodable from <= 4/6 choices over 6 grammars (assignment language, XML-like self embedding, left recursion, alternatives of different length, nonterminal-like terminals, unreachable recursion) x 3 insertable trees per nonterminal x all 7 method combinations: each result is a valid tree with the host's root, "
